@@ -1385,11 +1385,25 @@ def _get_switch_candidate(expression, ir):
     res1 = _render_expression(arg1, ir, subexpressions=None)
 
     if res0.is_constant and not res1.is_constant:
-        return arg1, arg0
-    if res1.is_constant and not res0.is_constant:
-        return arg0, arg1
+        discriminant, case_value = arg1, arg0
+    elif res1.is_constant and not res0.is_constant:
+        discriminant, case_value = arg0, arg1
+    else:
+        return None, None
 
-    return None, None
+    # A constant that the discriminant can never equal is not representable in
+    # the discriminant's C++ type, and would be an ill-formed (narrowing) case
+    # label.
+    if discriminant.type.which_type == "integer":
+        value = int(case_value.type.integer.modular_value)
+        minimum = discriminant.type.integer.minimum_value
+        maximum = discriminant.type.integer.maximum_value
+        if minimum not in ("-infinity", "infinity") and value < int(minimum):
+            return None, None
+        if maximum not in ("-infinity", "infinity") and value > int(maximum):
+            return None, None
+
+    return discriminant, case_value
 
 
 def _generate_optimized_ok_method_body(fields, ir, subexpressions):
